@@ -3,7 +3,8 @@ _C05_DEPS = ['harness/c05_model.hpp', 'harness/c05_engine.hpp', 'harness/c05_ops
 
 
 def _c05_tu(name, **kw):
-    d = dict(name=name, src='harness/%s.cpp' % name, deps=_C05_DEPS, san=False, opt=1)
+    # C05_F1_FIXED: pixel<T,L>(packed/bit-aligned pixel) compiles since /repo 330cfdb, so those constructions are in the alphabet
+    d = dict(name=name, src='harness/%s.cpp' % name, deps=_C05_DEPS, san=False, opt=1, flags=['-DC05_F1_FIXED'])
     d.update(kw)
     return d
 
@@ -37,7 +38,7 @@ CHECKS['C05'] = dict(
          'Models: pixel<T,L> (T = uint8, uint16, packed_channel_value<2|4>), planar_pixel_reference, packed_pixel (5-6-5, 3-3-2, 2-2-2; '
          '5-5-5-1, 1-2-3-2, 4-4-4-4; 2-2-2-2; 4; 1; 1-2-3-4-5), bit_aligned_pixel_reference, each also through const access paths '
          '(const pixel&, const planar reference, immutable bit-aligned reference); layouts rgb/bgr, rgba/bgra/argb/abgr, cmyk (+user-defined mykc), '
-         'gray, devicen<5> (+user-defined permutation). Only pairs with pixels_are_compatible (static_assert). '
+         'gray, devicen<5> (+user-defined permutation). Only pairs with pixels_are_compatible (compile-time dispatch; an incompatible pair of a family is reported). '
          'Transitions: get_color/semantic_at_c/at_c/operator[] writes (every channel x value alphabet), static_fill, static_generate, '
          'static_transform (1 and 2 sources, both argument orders), converting construction, assignment, static_copy (from mutable and const views), '
          'swap, reference-onto-value construction (planar ref over pixel, bit-aligned ref over packed pixel) with writes through it; '
@@ -52,8 +53,6 @@ CHECKS['C05'] = dict(
         'this is re-checked by the raw accessors after every step and by canon-on-replay',
         'static_generate / static_for_each: the statement fixes no visiting order, so only "each channel exactly once" and the pairing are checked',
         'user-defined layouts are built with gil::layout<ColorSpace, mp_list_c<int, physical index of each colour>> (documented convention)',
-        'pixel<T,L>(packed_pixel / bit_aligned_pixel_reference) does not compile although pixels_are_compatible holds '
-        '(design_notes/C05.md, finding C05-F1); those constructions are therefore not in the alphabet',
     ],
     tus=[_c05_tu('c05_rgb_a'), _c05_tu('c05_rgb_b'), _c05_tu('c05_rgba_a'), _c05_tu('c05_rgba_b'), _c05_tu('c05_rgba_c'),
          _c05_tu('c05_rgba_d'), _c05_tu('c05_rgba_e'), _c05_tu('c05_misc'), _c05_tu('c05_san', san=True)],
